@@ -88,6 +88,12 @@ CHECKS["C19"] = dict(
     technique="TLC exhaustive MC of a relational TLA+ spec with case emission; real-library replay; TLC trace judgement",
     ref="5/C19")
 
+CHECKS["C10"] = dict(
+    text="TLC completely enumerates a finite space of byte-interval layouts (size <=5 quick / <=6 thorough, every initialized_size, <=3 blocks at every (offset,size) incl. zero-sized, overlapping and beyond-initialized ones, code/data kinds, alignments {2,4,8}, annotations at every offset, with and without address) and checks that a line-by-line TLA+ model of split_byte_interval / join_byte_intervals (actions Split, Grow, Annotate, Join) satisfies the Level-A clauses SplitPreserves, JoinInverts, AlignmentHolds, PaddingLegal; every layout is emitted as a case and run through the real functions under call variants (default/custom tables, alignment as argument / aux table / none, nop / nop_encodings / ABI nop / none, growth, late annotation) and through an empty RewritingContext.apply() for the 5 ABIs; TLC judges each observed run with the same operators plus EmptyApplyIdentity and Completes.",
+    note="Exhaustive within the config bounds (exhaustive: true). Ties the code breaks by set-iteration order are existentially quantified in Level A. Level-B prediction vs observation is reported as drift (0). Blocks lie inside their interval; alignments are powers of two <= 8; default decode mode. KF-C10-1 (only the first aligned block of a group is aligned) is open.",
+    technique="TLC explicit-state check of a TLA+ refinement over a completely enumerated layout space + TLC trace validation of the real code on every enumerated layout",
+    ref="5/C10")
+
 PENDING = {}
 
 
